@@ -6,7 +6,7 @@ from props import _xml
 
 PID = "C08"
 
-THEOREMS = ['XmlDiffModel.C08_split_plain', 'XmlDiffModel.C09_xpath_live_view', 'XmlDiffModel.C11_table_injective', 'XmlDiffModel.C08_output_placeholder_free', 'XmlDiffModel.C11_prepare_then_finalize', 'XmlDiffModel.C09_accept_simulation']
+THEOREMS = ['XmlDiffModel.C08_split_plain', 'XmlDiffModel.C09_xpath_live_view', 'XmlDiffModel.C11_table_injective', 'XmlDiffModel.C08_output_placeholder_free', 'XmlDiffModel.C11_prepare_then_finalize', 'XmlDiffModel.C09_accept_simulation', 'XmlDiffModel.C09_differ_script']
 PARTIAL = {"C08": 'proved for the whole formatter without text tags and without use_replace (C08_output_placeholder_free): from a left document without private-use characters, for every script the handlers accept and engine answers of equal / insert / delete segments, the maker is untouched, every text and tail of the working tree stays plain or an emitted wrapper string (invariant FInv over all twelve handlers), finalize succeeds for every sufficiently large fuel and the tree handed to render has no placeholder character; with text tags only for the empty script (C11_prepare_then_finalize). Also: split_string leaves texts without private-use characters alone, the addressing lemma, the one-to-one placeholder table (C11). Totality: for every script the patcher accepts (stepwise-unique paths, no move into the own subtree, no comment actions) every handler succeeds (part of C09_accept_simulation). NOT proved: the same with text tags or use_replace and a non-empty script, well-formedness of the serialisation. Totality, re-parsing, absence of private-use characters and the namespace discipline are decided on every run on the real output; the model of the whole formatter is compared with the code by U9.'}
 LEAN_MODULES = ["XmlDiffModel.Props.C09", "XmlDiffModel.Props.C11"]
 SOURCES = ['formatting.XMLFormatter', 'formatting.PlaceholderMaker', 'main.diff_trees']
